@@ -43,6 +43,10 @@ def attack_templates():
         [O(1), R(1, "B", "a1"), O(2), C(2, "m1"), R(2, "B", "a1")],          # response lifted from another connection
         [O(1), R(1, "B", "a1"), O(2), C(2, "m1"), R(2, "B", "a2")],          # same key on a second connection
         [O(1), R(1, "B", "a1"), X(1), O(2), C(2, "m1"), R(2, "B", "a2")],    # reconnection under the same key
+        [O(2), C(2, "m1"), X(2), O(2), R(2, "B", "a1")],          # answer to a challenge of the previous connection of a static peer
+        [O(2), R(2, "B", "zero")],                                # unsolicited response signed over the all-zero challenge
+        [O(1), R(1, "B", "a1"), R(1, "B", "zero")],
+        [O(2), C(2, "zero"), R(2, "B", "a1")],
     ]
     return [dict(roles=roles, steps=s) for s in t]
 
